@@ -1,5 +1,5 @@
 SPECIFICATION Spec
-CONSTANTS NG = 3 LNames = {"a", "b", "c"} Calls = 3 Atomic = TRUE
+CONSTANTS NG = 3 LNames = {"a", "b", "c"} Calls = 3 Atomic = TRUE NW = 2 Walks = 2 RegistryWalkUnlocked = FALSE
 INVARIANTS NotBad
-PROPERTY Stable
+PROPERTIES Stable NoWriteDuringLiveWalk
 CHECK_DEADLOCK FALSE
